@@ -176,9 +176,6 @@ func (n *MethodDefinitionNode) String() string {
 	if n.IsSealed() {
 		buff.WriteString("sealed ")
 	}
-	if n.IsGenerator() {
-		buff.WriteString("generator ")
-	}
 	if n.IsAsync() {
 		buff.WriteString("async ")
 	}
@@ -187,6 +184,10 @@ func (n *MethodDefinitionNode) String() string {
 	}
 
 	buff.WriteString("def ")
+	if n.IsGenerator() {
+		// generators are marked with a star before the name: `def *foo`
+		buff.WriteRune('*')
+	}
 	buff.WriteString(n.Name.String())
 
 	if len(n.TypeParameters) > 0 {
